@@ -124,8 +124,14 @@ class GeminiClientProtocol(asyncio.Protocol):
             if not (20 <= self.status < 30):
                 self.transport.close()  # type: ignore
 
-        # Check if we've received too much data (prevent memory exhaustion)
-        if len(self.buffer) > MAX_RESPONSE_BODY_SIZE:
+        # Check if we've received too much data (prevent memory exhaustion).
+        # Only a 2x response has a body; after any other status the connection
+        # has just been closed and stray trailing bytes do not matter
+        if (
+            self.status is not None
+            and 20 <= self.status < 30
+            and len(self.buffer) > MAX_RESPONSE_BODY_SIZE
+        ):
             self._set_error(
                 Exception(
                     f"Response body exceeds maximum size ({MAX_RESPONSE_BODY_SIZE} bytes)"
@@ -394,8 +400,12 @@ class TitanClientProtocol(asyncio.Protocol):
                 if self.transport:
                     self.transport.close()
 
-        # Check if we've received too much data
-        if len(self.buffer) > MAX_RESPONSE_BODY_SIZE:
+        # Check if we've received too much data (only 2x responses have a body)
+        if (
+            self.status is not None
+            and 20 <= self.status < 30
+            and len(self.buffer) > MAX_RESPONSE_BODY_SIZE
+        ):
             self._set_error(
                 Exception(
                     f"Response body exceeds maximum size ({MAX_RESPONSE_BODY_SIZE} bytes)"
